@@ -140,36 +140,33 @@ func matchStatement(cur Statement, node ipld.Node) (_ matchResult, leafMost Stat
 		}
 	case KindAnd:
 		if s, ok := cur.(connective); ok {
+			// order-independent: false > no data > optional no data > true
+			res, leaf := matchResultTrue, Statement(nil)
 			for _, cs := range s.statements {
-				res, leaf := matchStatement(cs, node)
-				switch res {
-				case matchResultNoData, matchResultOptionalNoData:
-					return res, leaf
-				case matchResultTrue:
-					// continue
-				case matchResultFalse:
-					return matchResultFalse, leaf
+				r, l := matchStatement(cs, node)
+				if andRank(r) > andRank(res) {
+					res, leaf = r, l
 				}
 			}
-			return matchResultTrue, nil
+			return res, leaf
 		}
 	case KindOr:
 		if s, ok := cur.(connective); ok {
 			if len(s.statements) == 0 {
 				return matchResultTrue, nil
 			}
+			// order-independent: true > optional no data > no data > false
+			res, leaf := matchResultFalse, Statement(cur)
 			for _, cs := range s.statements {
-				res, leaf := matchStatement(cs, node)
-				switch res {
-				case matchResultNoData, matchResultOptionalNoData:
-					return res, leaf
-				case matchResultTrue:
-					return matchResultTrue, leaf
-				case matchResultFalse:
-					// continue
+				r, l := matchStatement(cs, node)
+				if r == matchResultTrue {
+					return matchResultTrue, l
+				}
+				if andRank(r) < andRank(res) {
+					res, leaf = r, l
 				}
 			}
-			return matchResultFalse, cur
+			return res, leaf
 		}
 	case KindLike:
 		if s, ok := cur.(wildcard); ok {
@@ -199,22 +196,18 @@ func matchStatement(cur Statement, node ipld.Node) (_ matchResult, leafMost Stat
 			if it == nil {
 				return matchResultFalse, cur // not a list
 			}
+			acc, leaf := matchResultTrue, Statement(nil)
 			for !it.Done() {
 				_, v, err := it.Next()
 				if err != nil {
 					panic("should never happen")
 				}
-				matchRes, leaf := matchStatement(s.statement, v)
-				switch matchRes {
-				case matchResultNoData, matchResultOptionalNoData:
-					return matchRes, leaf
-				case matchResultTrue:
-					// continue
-				case matchResultFalse:
-					return matchResultFalse, leaf
+				r, l := matchStatement(s.statement, v)
+				if andRank(r) > andRank(acc) {
+					acc, leaf = r, l
 				}
 			}
-			return matchResultTrue, nil
+			return acc, leaf
 		}
 	case KindAny:
 		if s, ok := cur.(quantifier); ok {
@@ -229,22 +222,21 @@ func matchStatement(cur Statement, node ipld.Node) (_ matchResult, leafMost Stat
 			if it == nil {
 				return matchResultFalse, cur // not a list
 			}
+			acc, leaf := matchResultFalse, Statement(cur)
 			for !it.Done() {
 				_, v, err := it.Next()
 				if err != nil {
 					panic("should never happen")
 				}
-				matchRes, leaf := matchStatement(s.statement, v)
-				switch matchRes {
-				case matchResultNoData, matchResultOptionalNoData:
-					return matchRes, leaf
-				case matchResultTrue:
+				r, l := matchStatement(s.statement, v)
+				if r == matchResultTrue {
 					return matchResultTrue, nil
-				case matchResultFalse:
-					// continue
+				}
+				if andRank(r) < andRank(acc) {
+					acc, leaf = r, l
 				}
 			}
-			return matchResultFalse, cur
+			return acc, leaf
 		}
 	}
 	panic(fmt.Errorf("unimplemented statement kind: %s", cur.Kind()))
@@ -293,3 +285,17 @@ func gt(order int) bool  { return order == 1 }
 func gte(order int) bool { return order == 0 || order == 1 }
 func lt(order int) bool  { return order == -1 }
 func lte(order int) bool { return order == 0 || order == -1 }
+
+// andRank orders match results by how strongly they make a conjunction fail.
+func andRank(r matchResult) int {
+	switch r {
+	case matchResultFalse:
+		return 3
+	case matchResultNoData:
+		return 2
+	case matchResultOptionalNoData:
+		return 1
+	default:
+		return 0
+	}
+}
